@@ -76,7 +76,7 @@ func traceLines(evs []Ev, cap int, variant string, quiet bool, prompt []int) []s
 	}
 	lines := []string{fmt.Sprintf("reset fixed=%d cap=%d interval=%d", fixed, cap, intervalNs)}
 	for _, e := range evs {
-		if e.K == "open" { // monitor-only: a channel found open when a Close call returned
+		if e.K == "open" || e.K == "drained" { // monitor-only: a channel found open when a Close call returned; a slow reader has caught up
 			continue
 		}
 		lines = append(lines, e.Line())
@@ -158,6 +158,13 @@ func (r *runner) eval(c Case) []Problem {
 		r.res.Hit("event:" + e.K)
 		if e.K == "recv" {
 			recvs++
+		}
+		if e.K == "drained" {
+			if e.V == 0 {
+				r.res.Hit("slow-reader:resumed-and-caught-up")
+			} else {
+				r.res.Hit("slow-reader:resumed-gave-up-after-silence")
+			}
 		}
 		if e.K == "park" {
 			parks++
@@ -333,6 +340,22 @@ func main() {
 	// 1. departures with a full buffer, back-pressure, slow readers
 	for _, c := range departureCases(cap) {
 		r.eval(c)
+	}
+	// 1b. slow subscribers that stay subscribed: more than the buffer outstanding, then they catch up
+	slowFound := 0
+	for _, c := range slowCases(cap, thorough || fl.Search) {
+		if slowFound >= 3 {
+			// each failing case costs seconds (the resumed reader waits out a long silence, twice more in
+			// the confirming run): three confirmed failing inputs of the family are enough
+			res.Hit("slow-subscriber:skipped-after-3-confirmed-violations")
+			continue
+		}
+		for _, p := range r.eval(c) {
+			if p.FindingID == "staying-slow-subscriber-missed-value" {
+				slowFound++
+				break
+			}
+		}
 	}
 	// 2. forced schedules at the two hook points
 	for _, c := range forcedCases(thorough || fl.Search) {
